@@ -93,6 +93,103 @@ class Walker:
         return paths
 
 
+def _scenarios(M, PP, MP, thorough):
+    """-> ('ok', n) | ('bad', text, witness, kind) | ('und', why)"""
+    import itertools
+    import random
+    from sa.abseval import AbsEval, AObj, AbsRaise
+    # message templates: V valid with payload, I invalid, E valid with empty payload, N valid with payload None
+    TEMPL = [(), ("I",), ("V",), ("I", "V", "I"), ("E", "V"), ("V", "N")] + ([("V", "V"), ("I", "I"), ("N",), ("I", "E", "I", "V")] if thorough else [])
+
+    def scripts_small():
+        for nr, nc in ((1, 2), (2, 2)):
+            for combo in itertools.product(range(len(TEMPL)), repeat=nr * nc):
+                yield [[TEMPL[combo[r * nc + c]] for c in range(nc)] for r in range(nr)]
+        rnd = random.Random(13)
+        for _ in range(400 if thorough else 120):
+            nr, nc = rnd.choice((2, 3)), 3
+            yield [[rnd.choice(TEMPL) for _ in range(nc)] for _ in range(nr)]
+    n = 0
+    for kind, C in (("payload", PP), ("message", MP)):
+        dr = M.find_method((C.mod, C.name), "data_received")
+        for script in scripts_small():
+            n += 1
+            log = []
+            msgs = {}
+
+            def mk_msg(r, c, k, t):
+                o = AObj("Message", {"is_valid": t != "I", "payload": (None if t == "N" else b"" if t == "E" else f"pay-{r}-{c}-{k}".encode()), "as_bytes": f"raw-{r}-{c}-{k}".encode()}, name=f"m{r}.{c}.{k}{t}")
+                msgs[id(o)] = o
+                return o
+            table = [[[mk_msg(r, c, k, t) for k, t in enumerate(cell)] for c, cell in enumerate(row)] for r, row in enumerate(script)]
+
+            def mk_reader(r):
+                st = {"n": 0}
+
+                def read(chunk):
+                    c = st["n"]
+                    st["n"] += 1
+                    log.append(("read", r, chunk))
+                    return list(table[r][c]) if c < len(table[r]) else []
+                return AObj("Reader", {"read": read}, name=f"reader{r}")
+            readers = [mk_reader(r) for r in range(len(script))]
+            queue = AObj("Queue", {"put_nowait": (lambda x: log.append(("put", x)))}, name="queue")
+            A = AbsEval(M)
+            A.external_calls_opaque = True
+            try:
+                obj = A.instantiate((C.mod, C.name), [queue, list(readers)])
+            except AbsRaise as ex:
+                return ("bad", f"constructing the {kind} protocol raises {ex.cls}", f"{len(script)} candidate reader(s)", "select")
+            except Exception as ex:  # noqa
+                return ("und", f"{C.name}() outside the interpreted subset: {type(ex).__name__}: {ex}")
+            nc = len(script[0])
+            # reference
+            want_put, selected, cands = [], None, list(range(len(script)))
+            want_reads = []
+            for c in range(nc):
+                if selected is not None:
+                    want_reads.append((selected, c))
+                    fw = table[selected][c]
+                else:
+                    fw = []
+                    for r in cands:
+                        want_reads.append((r, c))
+                        if any(m_.attrs["is_valid"] for m_ in table[r][c]):
+                            selected, cands, fw = r, [], table[r][c]
+                            break
+                for m_ in fw:
+                    if kind == "message":
+                        want_put.append(m_)
+                    elif m_.attrs["is_valid"] and m_.attrs["payload"]:
+                        want_put.append(m_.attrs["payload"])
+            chunks = [f"chunk{c}".encode() for c in range(nc)]
+            for c in range(nc):
+                r_ = A.apply(dr, [obj, chunks[c]])
+                if r_[0] in ("undecided", "branch"):
+                    return ("und", f"{C.name}.data_received outside the interpreted subset: {r_[1]!r}"[:300])
+                if r_[0] == "raise":
+                    return ("bad", f"data_received raises {r_[1]}", _show_script(script, c), "forward")
+            got_put = [e[1] for e in log if e[0] == "put"]
+            got_reads = [(e[1], chunks.index(e[2]) if e[2] in chunks else -1) for e in log if e[0] == "read"]
+            same_put = len(got_put) == len(want_put) and all((a is b) or (isinstance(a, bytes) and a == b) for a, b in zip(got_put, want_put))
+            if not same_put:
+                return ("bad", f"the {kind} protocol does not put on its queue exactly " + ("every message" if kind == "message" else "the non-empty payloads of the valid messages") +
+                        " of the selected reader, in order, from the chunk in which it first produced a valid message",
+                        f"{_show_script(script)}: queue gets {[getattr(x, 'name', x) for x in got_put]}, expected {[getattr(x, 'name', x) for x in want_put]}"[:400], "forward")
+            # reads: the reference reads must occur exactly once each and in order; reads of later candidates in the selection chunk are not constrained
+            extra_ok = lambda rd: selected is not None and rd[0] != selected
+            filt = [rd for rd in got_reads if rd in want_reads or not extra_ok(rd)]
+            if filt != want_reads:
+                return ("bad", "a reader is not given every chunk exactly once (until a reader is selected every remaining candidate reads the chunk; afterwards the selected one does): a reader that "
+                        "misses or repeats a chunk loses its place in the stream", f"{_show_script(script)}: reads {got_reads}, expected {want_reads}"[:400], "select")
+    return ("ok", n)
+
+
+def _show_script(script, upto=None):
+    return "candidates " + " | ".join("reader%d: %s" % (r, " , ".join("[" + "".join(cell) + "]" for cell in row[:None if upto is None else upto + 1])) for r, row in enumerate(script)) + \
+        " (per chunk; V valid, I invalid, E valid with empty payload, N valid without payload)"
+
+
 def attr_of(sv):
     """(base, attribute name) of a property/field read, whatever the engine could resolve"""
     if isinstance(sv, tuple) and sv and sv[0] in ("prop", "f0") and len(sv) >= 3:
@@ -272,9 +369,24 @@ def check(src, rep):
     rep.count("loops", len(all_loops))
     viol = []
 
+    # the two protocol classes interpreted (E-ABS) on scripted readers: what reaches the queue and which reader reads which chunk, compared with the reference
+    sc = _scenarios(M, PP, MP, rep.tier == "thorough")
+    shape_complaints = []
+
     def V(rule, key, text, line, wit=None):
         viol.append(key)
+        if sc[0] == "ok":
+            # on every scripted scenario the queue gets exactly what the property says: the form of the code is merely not one the path rules recognise
+            shape_complaints.append(f"{key}: {text[:120]}")
+            return
         rep.violation(rule, f"{MOD}.SmartMeterBaseProtocol.data_received", key, text, file, line, wit)
+    if sc[0] == "bad":
+        rep.violation("R3" if sc[3] == "select" else "R4", f"{MOD}.SmartMeterBaseProtocol.data_received", f"scenario:{sc[3]}", sc[1], file, dr.node.lineno, sc[2])
+    elif sc[0] == "ok":
+        rep.ok("R4", f"{sc[1]} scripted scenarios", "candidate lists of 1-3 scripted readers x 2-3 chunks x message lists with every placement of valid / invalid / empty-payload messages, both protocol "
+               "classes interpreted through __init__ and data_received: the queue receives exactly the reference sequence, every candidate reads every chunk once until one is selected, the selected "
+               "one reads every later chunk once")
+    rep.count("scenarios", sc[1] if sc[0] == "ok" else 0)
 
     # forwarding loops
     n_fw = 0
@@ -387,6 +499,8 @@ def check(src, rep):
                 fw = [c for c in cand_loop.children if any(is_mr_call(e) for q in c.body for e in q.effects) and any(e[0] == "loop-ref" and e[1] == id(c) for e in p.effects)]
                 if not fw:
                     V("R4", "selected-not-forwarded", "the chunk in which a reader is selected is not forwarded", cand_loop.node.lineno)
+    if shape_complaints:
+        rep.undecide("R3 data_received behaves as specified on all scripted scenarios, but its form is outside the path rules that extend this to every stream: " + "; ".join(shape_complaints[:3]))
     if not viol:
         rep.ok("R3", f"{n_sel} selection site(s)", "assigned only in the candidate loop, to the candidate itself, guarded by is_valid of a message from that candidate's read(data) of this call")
         rep.ok("R4", f"{n_fw} forwarding loop(s)", "each iterates completely and unconditionally over read(data) of the reader known selected on that path; candidate loop left only after selection; each candidate reads the chunk once")
